@@ -185,14 +185,16 @@ pub fn run(case: &Case, _known: &BTreeSet<String>) -> Outcome {
     let keep = |d: &str| d.contains(".start") || d.contains(".size") || d.starts_with("fat[") || d.starts_with("minifat[") || d.starts_with("crash image") || d.contains("lost write") || d.contains("misdirected");
     let mut sel = vec![];
     for m in muts.drain(..) {
-        if keep(&m.0) || rng.chance(1, 6) {
+        if keep(&m.desc()) || rng.chance(1, 6) {
             sel.push(m);
         }
     }
-    sel.insert(0, ("undamaged base".to_string(), "none", base.image.clone()));
+    sel.insert(0, c05::Damage::Image("undamaged base".to_string(), base.image.clone()));
     let mut hashes: BTreeSet<u64> = BTreeSet::new();
     let mut accepted = 0u64;
-    'outer: for (desc, kind, img) in &sel {
+    'outer: for dmg in &sel {
+        let img = &dmg.image(&base.image);
+        let (desc, kind) = (&dmg.desc(), if dmg.desc() == "undamaged base" { "none" } else { dmg.kind() });
         // accepted by permissive open?
         let mut marker = Case::new("C11", "single-image", case.version);
         marker.params.insert("seed".into(), case.param("seed", 1));
